@@ -70,4 +70,9 @@ TEXTS["C07"] = {
     "note": "Real newRPCServer/DefaultRPCPolicy/authorisation function, crdt and raft IsTrustedPeer/Trust/Distrust and the pubsub topic validator from /repo. The frozen table is the harness's reading of the statement and of rpc_policy.go's comments.",
     "technique": "exhaustive endpoint x caller matrix per generated trust history (rapid), oracle = frozen permission table",
 }
+TEXTS["C02"] = {
+    "level": "Model-based stateful testing of a real CRDT replica's batching (all batching settings, bursts, pauses, injected commit failures; oracle = committed state plus a prefix of the accepted operations, full application after the trigger, sentinel liveness, tracker's last event per CID) and schedule exploration of 2-3 real replicas under harness-owned partitions (oracle = equal pinsets once every marker is visible everywhere and listings are stable, tracker hand-off). Exploration level; convergence is observed with generous bounds and a liveness witness.",
+    "note": "Real consensus/crdt, dsstate, go-ds-crdt, ipfs-lite and gossipsub on loopback hosts. Message-level delivery order inside gossipsub/bitswap is left to the scheduler.",
+    "technique": "model-based stateful property testing with fault injection and partition schedules (rapid state machine)",
+}
 PENDING = {}
